@@ -209,3 +209,12 @@ impl webpki_types::SignatureVerificationAlgorithm for Ed25519Dalek {
         false
     }
 }
+
+/// Verification hook: the raw Ed25519 verifier used for TLS 1.3 handshake signatures.
+#[cfg(feature = "verif-hooks")]
+pub(crate) fn verif_ed25519_verify(public_key: &[u8], message: &[u8], signature: &[u8]) -> bool {
+    use webpki_types::SignatureVerificationAlgorithm;
+    ED25519_DALEK
+        .verify_signature(public_key, message, signature)
+        .is_ok()
+}
